@@ -3,7 +3,7 @@
 cd /verif
 for d in seeded/*/; do
   id=$(basename $d); prop=${id%-*}
-  out=$(bin/mutcheck.sh $d/patch.diff $prop quick 2>&1); rc=$?
+  out=$(bin/mutcheck.sh /verif/$d/patch.diff $prop quick 2>&1); rc=$?
   clause=$(echo "$out" | grep -o "clause [A-Za-z0-9_]* failed\|C[0-9][0-9]_[A-Za-z0-9_]* at\|died inside\|panicked" | head -1)
   echo "$id rc=$rc $clause"
 done
